@@ -192,6 +192,7 @@ func (s *Server) DidChange(ctx context.Context, params *protocol.DidChangeTextDo
 		// the include resolution of the superseded version must not answer
 		// requests about the new text; the analysis started below replaces it
 		s.resolved.Delete(params.TextDocument.URI)
+		s.payeeTemplatesCache.Delete(params.TextDocument.URI)
 		if s.workspace != nil {
 			if path := uriToPath(params.TextDocument.URI); path != "" {
 				s.workspace.UpdateFile(path, content)
@@ -211,6 +212,7 @@ func isFullChange(r protocol.Range) bool {
 func (s *Server) DidClose(ctx context.Context, params *protocol.DidCloseTextDocumentParams) error {
 	s.documents.Delete(params.TextDocument.URI)
 	s.resolved.Delete(params.TextDocument.URI)
+	s.payeeTemplatesCache.Delete(params.TextDocument.URI)
 	tokenCache.delete(params.TextDocument.URI)
 	return nil
 }
